@@ -148,14 +148,28 @@ func checkShortCircuitFlag(c *Ctx, rule string) {
 			if !ok {
 				return true
 			}
-			id := identOf(ifs.Cond)
+			cond := ast.Unparen(ifs.Cond)
+			if u, ok := cond.(*ast.UnaryExpr); ok && u.Op == token.NOT {
+				cond = ast.Unparen(u.X)
+			}
+			id := identOf(cond)
 			if id == nil {
 				return true
 			}
-			for _, st := range ifs.Body.List {
-				if a2, ok := st.(*ast.AssignStmt); ok && len(a2.Lhs) == 1 {
-					if ix, ok := ast.Unparen(a2.Lhs[0]).(*ast.IndexExpr); ok && FieldOf(info, ix.X) == exprsF {
-						flag = info.ObjectOf(id)
+			branches := []ast.Stmt{ifs.Body}
+			if ifs.Else != nil {
+				branches = append(branches, ifs.Else)
+			}
+			for _, br := range branches {
+				blk, ok := br.(*ast.BlockStmt)
+				if !ok {
+					continue
+				}
+				for _, st := range blk.List {
+					if a2, ok := st.(*ast.AssignStmt); ok && len(a2.Lhs) == 1 {
+						if ix, ok := ast.Unparen(a2.Lhs[0]).(*ast.IndexExpr); ok && FieldOf(info, ix.X) == exprsF {
+							flag = info.ObjectOf(id)
+						}
 					}
 				}
 			}
